@@ -16,7 +16,6 @@ Theorem C10_deep_binary_application_is_a_homomorphism :
   (forall a, R a a) -> (forall a b, R a b -> R b a) -> (forall a b c, R a b -> R b c -> R a c) ->
   (forall k a a' b b', R a a' -> R b b' -> R (binf C k a b) (binf C k a' b')) ->
   (forall k a a', R a a' -> R (unf C k a) (unf C k a')) ->
-  wf_table tb = true ->
   (forall k, comm_of tb k = true -> forall a b c, R (binf C k (binf C k a b) c) (binf C k a (binf C k b c))) ->
   forall (a b : deepex D) (name : str) (k : nat),
   find_op name tb 0 = Some k -> is_bin tb k = true ->
